@@ -406,7 +406,7 @@ func verifClassify(l *verifLayer, x verifLine, dbRes string) string {
 			return "ignore" // a negative number is not a file offset
 		}
 	case "stat":
-		if x.args == "-" && verifHasRootEntry(l) && verifOnlyFieldDiffers(x.res, dbRes, "nlink") {
+		if x.args == "-" && verifHasRootEntry(l) && verifNlinkOffByOne(x.res, dbRes) {
 			return "root-entry-nlink"
 		}
 	case "readpre":
@@ -424,6 +424,40 @@ func verifHasRootEntry(l *verifLayer) bool {
 		}
 	}
 	return false
+}
+
+func verifHasRepeatedName(l *verifLayer) bool {
+	seen := map[string]bool{}
+	for i := range l.ents {
+		if l.ents[i].Type == "chunk" {
+			continue
+		}
+		n := verifClean(l.ents[i].Name)
+		if seen[n] {
+			return true
+		}
+		seen[n] = true
+	}
+	return false
+}
+
+// verifNlinkOffByOne: the only difference is nlink, and db = mem + 1.
+func verifNlinkOffByOne(a, b string) bool {
+	if !verifOnlyFieldDiffers(a, b, "nlink") {
+		return false
+	}
+	var x, y int
+	for _, f := range strings.Fields(a) {
+		if strings.HasPrefix(f, "nlink=") {
+			fmt.Sscanf(f, "nlink=%d", &x)
+		}
+	}
+	for _, f := range strings.Fields(b) {
+		if strings.HasPrefix(f, "nlink=") {
+			fmt.Sscanf(f, "nlink=%d", &y)
+		}
+	}
+	return y == x+1
 }
 
 func verifOnlyFieldDiffers(a, b, field string) bool {
@@ -515,6 +549,11 @@ func (s *verifSession) openLayer(l *verifLayer) *verifOpen {
 			return "err"
 		}
 		return "ok"
+	}
+	if l.class == "conf" && !verifHasRootEntry(l) && !verifHasRepeatedName(l) {
+		// the layer lies inside the fragment of the Lean theorems (decided by the model's own predicate)
+		out.Emit("spec "+tag, "conf")
+		out.Count("in-proved-fragment")
 	}
 	out.Emit("open mem "+tag, res(o.memErr))
 	out.Emit("open db "+tag, res(o.dbErr))
